@@ -37,39 +37,55 @@ pub struct Receiver { _p: u8 }
 impl Receiver {
     // every Sender has been dropped and the queue is drained (Observer::shutdown / Storage::close)
     pub uninterp spec fn closed(&self) -> bool;
+    // number of messages taken out of the channel so far (ghost)
+    pub uninterp spec fn taken(&self) -> nat;
     #[verifier::external_body]
     pub fn recv(&mut self) -> (r: Option<Msg>)
-        ensures r is None ==> final(self).closed()
+        ensures r is None ==> final(self).closed() && final(self).taken() == old(self).taken(),
+            r is Some ==> final(self).taken() == old(self).taken() + 1,
     { unimplemented!() }
 }
 // timeout_at(deadline, receiver.recv())
 #[verifier::external_body]
 pub fn recv_with_deadline(deadline: Instant, rx: &mut Receiver) -> (r: Result<Option<Msg>, ()>)
-    ensures r is Ok && r->Ok_0 is None ==> final(rx).closed()
+    ensures r is Ok && r->Ok_0 is None ==> final(rx).closed(),
+        r is Ok && r->Ok_0 is Some ==> final(rx).taken() == old(rx).taken() + 1,
+        !(r is Ok && r->Ok_0 is Some) ==> final(rx).taken() == old(rx).taken(),
 { unimplemented!() }
 #[verifier::external_body]
 pub fn deadline_plus_eps(d: Instant) -> (r: Instant) { unimplemented!() }
 
 // `task.as_ref().map_or(false, |task| task.is_finished())`
 #[verifier::external_body]
-pub fn task_is_finished(t: &Option<JoinHandle>) -> (r: bool) { unimplemented!() }
+pub fn task_is_finished(t: &Option<JoinHandle>) -> (r: bool) ensures r ==> *t is Some { unimplemented!() }
+// `task.as_ref().map_or(false, |task| !task.is_finished())`
+#[verifier::external_body]
+pub fn task_in_progress(t: &Option<JoinHandle>) -> (r: bool) ensures r ==> *t is Some, r == in_progress(*t) { unimplemented!() }
+// the task behind the handle has not finished yet (wall-clock fact, any value for a Some handle)
+pub uninterp spec fn in_progress(t: Option<JoinHandle>) -> bool;
 #[verifier::external_body]
 pub fn complete_task(t: &mut Option<JoinHandle>, name: &str) ensures *final(t) is None { unimplemented!() }
 
-// Arc<Inner<K>> as the worker sees it: each entry point may succeed or fail
+// Arc<Inner<K>> as the worker sees it: each entry point may succeed or fail; `log()` records which
+// entry points were called, in order (ghost; R7: the storage has interior mutability)
+pub enum InnerOp { Close, Create, Restore, ForceUpdate }
 #[verifier::external_body]
 pub struct InnerRef { _p: u8 }
 impl InnerRef {
+    pub uninterp spec fn log(&self) -> Seq<InnerOp>;
     #[verifier::external_body]
     pub fn deferred_min_time(&self) -> (r: Duration) { unimplemented!() }
     #[verifier::external_body]
     pub fn deferred_max_time(&self) -> (r: Duration) { unimplemented!() }
     #[verifier::external_body]
-    pub fn close_active_blob(&self) -> (r: Result<(), VErr>) { unimplemented!() }
+    pub fn close_active_blob(&mut self) -> (r: Result<(), VErr>) ensures final(self).log() == old(self).log().push(InnerOp::Close) { unimplemented!() }
     #[verifier::external_body]
-    pub fn create_active_blob(&self) -> (r: Result<(), VErr>) { unimplemented!() }
+    pub fn create_active_blob(&mut self) -> (r: Result<(), VErr>) ensures final(self).log() == old(self).log().push(InnerOp::Create) { unimplemented!() }
     #[verifier::external_body]
-    pub fn restore_active_blob(&self) -> (r: Result<(), VErr>) { unimplemented!() }
+    pub fn restore_active_blob(&mut self) -> (r: Result<(), VErr>) ensures final(self).log() == old(self).log().push(InnerOp::Restore) { unimplemented!() }
 }
 #[verifier::external_body]
-pub fn update_active_blob(inner: &InnerRef) -> (r: Result<(), VErr>) { unimplemented!() }
+pub fn update_active_blob(inner: &mut InnerRef) -> (r: Result<(), VErr>) ensures final(inner).log() == old(inner).log().push(InnerOp::ForceUpdate) { unimplemented!() }
+// tokio::spawn(async move { .. }): a handle of a running task
+#[verifier::external_body]
+pub fn spawn_task() -> (r: JoinHandle) { unimplemented!() }
